@@ -364,4 +364,76 @@ theorem spatialCounts_reindex (n : Nat) (σ : List Nat) (hσ : σ ~ List.range n
     rw [List.getElem?_eq_none (by omega), List.getElem?_eq_none (by omega)]
     rfl
 
+/-! ### in-place re-ordering of stored rows -/
+
+theorem reindex_length {β} [Inhabited β] (σ : List Nat) (xs : List β) : (reindex σ xs).length = σ.length := by
+  unfold reindex; simp
+
+/-- `rows[σ]` is a permutation of `rows` when σ is a permutation of `0..n-1` -/
+theorem reindex_perm {β} [Inhabited β] (σ : List Nat) (xs : List β) (hσ : σ ~ List.range xs.length) :
+    reindex σ xs ~ xs := by
+  have h := hσ.map (fun i => xs[i]?.getD default)
+  exact h.trans (Perm.of_eq (reindex_range xs))
+
+theorem reorderSeq_perm {β} [Inhabited β] (steps : List (List Nat)) :
+    ∀ (rows : List β), (∀ σ ∈ steps, σ ~ List.range rows.length) → reorderSeq rows steps ~ rows := by
+  induction steps with
+  | nil => intro rows _; exact Perm.refl _
+  | cons σ rest ih =>
+    intro rows h
+    have hσ : σ ~ List.range rows.length := h σ (by simp)
+    have hp : reindex σ rows ~ rows := reindex_perm σ rows hσ
+    have hl : (reindex σ rows).length = rows.length := hp.length_eq
+    have := ih (reindex σ rows) (fun τ hτ => hl ▸ h τ (by simp [hτ]))
+    simpa [reorderSeq, reorderInPlace] using this.trans hp
+
+/-! ### the region lookup has no memory -/
+
+theorem findLocation_spec (bs : List Box) (lon lat : Rat) :
+    ∀ i, findLocation bs lon lat = some i →
+      (∃ b, bs[i]? = some b ∧ inBox b lon lat = true) ∧
+      ∀ j, j < i → ∀ b', bs[j]? = some b' → inBox b' lon lat = false := by
+  induction bs with
+  | nil => intro i h; simp [findLocation] at h
+  | cons b rest ih =>
+    intro i h
+    unfold findLocation at h
+    by_cases hb : inBox b lon lat = true
+    · simp only [hb, if_true, Option.some.injEq] at h
+      subst h
+      exact ⟨⟨b, by simp, hb⟩, fun j hj => absurd hj (Nat.not_lt_zero j)⟩
+    · have hbf : inBox b lon lat = false := by simpa using hb
+      rw [hbf] at h
+      cases hr : findLocation rest lon lat with
+      | none => simp [hr] at h
+      | some k =>
+        simp [hr] at h
+        subst h
+        obtain ⟨⟨b0, hb0, hin⟩, hbefore⟩ := ih k hr
+        refine ⟨⟨b0, by simpa using hb0, hin⟩, ?_⟩
+        intro j hj b' hb'
+        cases j with
+        | zero =>
+          simp only [List.getElem?_cons_zero, Option.some.injEq] at hb'
+          subst hb'
+          simpa using hb
+        | succ j' =>
+          simp only [List.getElem?_cons_succ] at hb'
+          exact hbefore j' (by omega) b' hb'
+
+theorem findLocation_none (bs : List Box) (lon lat : Rat) :
+    findLocation bs lon lat = none ↔ ∀ b ∈ bs, inBox b lon lat = false := by
+  induction bs with
+  | nil => simp [findLocation]
+  | cons b rest ih =>
+    unfold findLocation
+    by_cases hb : inBox b lon lat = true
+    · simp [hb]
+    · have hb' : inBox b lon lat = false := by simpa using hb
+      simp [hb', ih]
+
+theorem locateEvents_append (bs : List Box) (xs ys : List RawEvent) :
+    locateEvents bs (xs ++ ys) = locateEvents bs xs ++ locateEvents bs ys := by
+  unfold locateEvents; simp
+
 end PermInv
